@@ -882,7 +882,16 @@ def r7(R):
     for d in ("row", "col"):
         R.check(("group['%s'][:] = frame.%s" % (d, d)) in uw and ("group['%s'][:]" % d) in ur, "C18.R7", SPF, w.lineno, "sparse_frame.to_hdf_group",
                 "dataset %s written and read" % d, "dataset %s is not on both sides" % d)
-    R.check("for pxname, px in frame.pixels.items()" in uw and "group[pxname][:] = px" in uw and "spf.set_pixels(pxname, data, header)" in ur, "C18.R7", SPF,
+    # reader side by role: <frame>.set_pixels(<name>, <group>[<name>][:], dict(<group>[<name>].attrs)) - values named or written inline
+    sp_ok = False
+    for c_ in ast.walk(rd):
+        if isinstance(c_, ast.Call) and isinstance(c_.func, ast.Attribute) and c_.func.attr == "set_pixels" and len(c_.args) >= 3:
+            a0 = src(c_.args[0]).replace(" ", "")
+            a1 = pyfacts.resolved_src(rd, c_.args[1], 2, keep=(a0,)).replace(" ", "")
+            a2 = pyfacts.resolved_src(rd, c_.args[2], 2, keep=(a0,)).replace(" ", "")
+            if re.match(r"^\(?\w+\[%s\]\[:\]\)?$" % re.escape(a0), a1) and ("[%s].attrs" % a0) in a2:
+                sp_ok = True
+    R.check("for pxname, px in frame.pixels.items()" in uw and "group[pxname][:] = px" in uw and sp_ok, "C18.R7", SPF,
             w.lineno, "sparse_frame.to_hdf_group", "every pixel array written and restored by name", "pixel arrays are not round-tripped by name")
     R.check("dict(group[pxname].attrs)" in ur, "C18.R7", SPF, rd.lineno, "from_hdf_group", "per-array metadata read from attrs", "metadata not restored")
     # metadata written through attrs.update / item assignment
